@@ -90,9 +90,14 @@ def r1(ctx):
         ctx.inst(R, "bounce:through-run_with_hosts", ok, bo.span, "bounce runs Rt::bounce inside run_with_hosts" if ok else "Sim::bounce no longer goes through run_with_hosts")
     rw = ctx.w.bodies.get("turmoil::sim::Sim::run_with_hosts")
     if rw:
-        cur = [bb for bb, i, s in rw.all_stmts() if _is_some_write(rw, s, "turmoil::world::World::current")]
-        ent = [bb for bb, t in rw.calls("turmoil::world::World::enter")]
-        ok = bool(cur) and bool(ent) and all(rw.dominated_by_any(x, blocks=cur) for x in ent)
+        # (the per-host body may be the closure of `hosts.into_iter().for_each(..)`: the body that enters the world is looked at)
+        ok = False
+        for fb in ctx.w.family(rw.id):
+            ent = [bb for bb, t in fb.calls("turmoil::world::World::enter")]
+            if not ent:
+                continue
+            cur = [bb for bb, i, s in fb.all_stmts() if _is_some_write(fb, s, "turmoil::world::World::current")]
+            ok = bool(cur) and all(fb.dominated_by_any(x, blocks=cur) for x in ent)
         ctx.inst(R, "run_with_hosts:current-before-enter", ok, rw.span, "host is current inside the entered world" if ok else "run_with_hosts does not set the current host before entering")
     ctx.floor(R, 4)
 
@@ -109,6 +114,13 @@ def r2(ctx):
             a1 = Slicer(ctx.w).atoms(ct, t["args"][1])
             for f in ("tokio", "local"):
                 if f"field:turmoil::rt::Rt::{f}" in a0 and "call:turmoil::rt::init" in a1:
+                    rep[f] = bb
+        # accepted idiom: `mem::swap(&mut self.tokio, &mut fresh)` with `fresh` from rt::init (the binding then holds the old value)
+        for bb, t in ct.calls(re.compile(r"^std::mem::swap$")):
+            a0 = Slicer(ctx.w).atoms(ct, t["args"][0])
+            a1 = Slicer(ctx.w).atoms(ct, t["args"][1])
+            for f in ("tokio", "local"):
+                if (f"field:turmoil::rt::Rt::{f}" in a0 and "call:turmoil::rt::init" in a1) or (f"field:turmoil::rt::Rt::{f}" in a1 and "call:turmoil::rt::init" in a0):
                     rep[f] = bb
         for bb, i, s in ct.all_stmts():
             # accepted idiom: plain assignment `self.tokio = tokio` (the old value is dropped in place)
@@ -259,19 +271,26 @@ def r5(ctx):
         b = ctx.body(R, fid)
         if not b:
             continue
-        fam = ctx.w.family(b.id)
+        fam = list(ctx.w.family(b.id))
+        # the start sequence may live in a private helper of the module (`spawn_software(tokio, local, software)`): one level is looked through
+        helpers = [(bb, ctx.w.bodies[t["f"]]) for bb, t in b.calls(re.compile(r"^turmoil::rt::\w+$")) if t["f"] in ctx.w.bodies and t["f"] != "turmoil::rt::with" and
+                   any(True for hb in ctx.w.family(t["f"]) for _ in hb.calls("turmoil::rt::with"))]
+        for hbb, hb in helpers:
+            fam += [x for x in ctx.w.family(hb.id) if x not in fam]
         fc = []
         sp = []
         for fb in fam:
-            for bb, t in fb.calls(re.compile(r"std::boxed::Box as std::ops::Fn>::call$")):
-                fc.append((fb, bb))
+            for bb, t in fb.calls(re.compile(r"std::boxed::Box as std::ops::Fn>::call$|Fn>::call$")):
+                if not str(t.get("x", "")).startswith("m:"):
+                    fc.append((fb, bb))
             for bb, t in fb.calls(re.compile(r"^tokio::task::spawn_local$")):
                 sp.append((fb, bb, t))
-        w = [bb for bb, t in b.calls("turmoil::rt::with")]
+        w = [bb for bb, t in b.calls("turmoil::rt::with")] + [hbb for hbb, hb in helpers]
         ok = len(fc) == 1 and len(sp) == 1 and len(w) == 1
         # the factory is host code: its synchronous prefix must run inside the host's runtime like the future it returns (outside, tokio's
         # Instant::now() is the wall clock) - the call sits in the closure handed to rt::with, not in the function itself
-        inside = ok and all(fb.id != b.id and any(fb.id in closure_args(b, t) or fb.id.startswith(cid) for bb, t in b.calls("turmoil::rt::with") for cid in closure_args(b, t)) for fb, bb in fc)
+        withs = [(xb, t) for xb in [b] + [hb for _, hb in helpers] for bb, t in xb.calls("turmoil::rt::with")]
+        inside = ok and all(any(fb.id in closure_args(xb, t) or any(fb.id.startswith(cid) for cid in closure_args(xb, t)) for xb, t in withs) for fb, bb in fc)
         if ok and not inside:
             ctx.inst(R, f"{fid}:factory-inside-runtime", False, b.span, f"`{fid}` calls the software factory outside the closure it hands to rt::with: the synchronous part of the "
                      "factory runs on the bare thread, where tokio::time::Instant::now() is the machine's wall clock - a start time taken there differs in every execution")
